@@ -215,6 +215,7 @@ fn observe(cmd: &mut Command<Effect, Event>, seen: &mut Seen, reqs: &mut Vec<Opt
 }
 
 fn run_race(c: &Cmd, pre: &[Act], a1: Act, a2: Act, order: Vec<usize>) -> Option<String> {
+    reset_abort_table();
     let mut aborts: Aborts = vec![];
     let mut cmd: Command<Effect, Event> = build(c, &Env::default(), &mut aborts);
     let mut reqs: Vec<Option<Request<TestOp>>> = vec![];
